@@ -339,7 +339,7 @@ struct CaseResult {
 
 fn exec_case(case: &Case) -> CaseResult {
     let ctx = Ctx::take();
-    let store = ctx.store.clone();
+    let store = ctx.store();
     let r = catch(|| {
         ctx.rt.block_on(async {
             let one = async |c: &Case| -> Result<Vec<Ev>, String> {
